@@ -71,16 +71,13 @@ func (e *Engine) makeOverride(name, spec string) (intrinsic, error) {
 
 // callBody executes a function's real body bypassing overrides/intrinsics.
 func (p *Path) callBody(fn *ssa.Function, args []Value) Value {
-	saved := p.hr.overrides
+	// path-local bypass (HarnessRun is shared between workers: never mutate it here)
 	name := infoOf(fn).name
-	tmp := map[string]intrinsic{}
-	for k, v := range saved {
-		if k != name {
-			tmp[k] = v
-		}
+	if p.bypass == nil {
+		p.bypass = map[string]int{}
 	}
-	p.hr.overrides = tmp
-	defer func() { p.hr.overrides = saved }()
+	p.bypass[name]++
+	defer func() { p.bypass[name]-- }()
 	return p.callFunction(fn, args, nil)
 }
 
